@@ -105,3 +105,5 @@ CLAIMS['C12'].update(
     text=CLAIMS['C12']['text'].replace(' The ordering predicates treat', ' The linear search keeps the nodes of one document together when the list holds nodes of several documents (two-witness postcondition + loop-free lemma over the search and predicate contracts). The ordering predicates treat'))
 CLAIMS['C20'].update(
     text=CLAIMS['C20']['text'].replace(' The other container operations are assumed.', ' The in-place block of XalanVector::insert(pos, count, value) adds exactly count elements, never pushes beyond the capacity and fills slots inside the vector. The other container operations are assumed.'))
+CLAIMS['C08'].update(
+    text=CLAIMS['C08']['text'].replace('Option selection (setupFormatterListener), the text method and the rest of FormatterToHTML are not covered.', 'The text method writes every unit of a text once, in order and unescaped, whether it arrives as characters, raw characters or CDATA (FormatterToText; LF platform). Unrepresentable characters under the text method and the rest of FormatterToHTML are not covered.'))
